@@ -44,23 +44,25 @@ def op_tok(o):
 def rand_history(r, kind, n):
     """ownership-valid history with a few invalid steps; values are distinct and increasing"""
     live = [True]
-    sent = False
-    recv = True
+    recv_left = None          # ops still generated after the receiver was dropped
     ops = []
     nextv = r.choice([1, 1, 100, -5])
-    # phase weights: (send, clone, drop, poll, dropr, invalid)
     style = r.random()
+    if style < 0.25:      # poll-heavy: parked receiver, changing wakers
+        w = (0.25, 0.08, 0.10, 0.52, 0.01, 0.04)
+    elif style < 0.5:     # send-heavy: long queues
+        w = (0.50, 0.10, 0.08, 0.27, 0.01, 0.04)
+    elif style < 0.75:    # handle churn: clone / drop
+        w = (0.20, 0.25, 0.25, 0.25, 0.01, 0.04)
+    else:
+        w = (0.30, 0.12, 0.15, 0.35, 0.04, 0.04)
     for _ in range(n):
+        if recv_left is not None:
+            if recv_left == 0:
+                break
+            recv_left -= 1
         lives = [i for i, x in enumerate(live) if x]
         k = r.random()
-        if style < 0.25:      # poll-heavy: parked receiver with many wakers
-            w = (0.25, 0.08, 0.10, 0.52, 0.01, 0.04)
-        elif style < 0.5:     # send-heavy queues
-            w = (0.50, 0.10, 0.08, 0.27, 0.01, 0.04)
-        elif style < 0.75:    # handle churn: clone / drop
-            w = (0.20, 0.25, 0.25, 0.25, 0.01, 0.04)
-        else:
-            w = (0.30, 0.12, 0.15, 0.35, 0.04, 0.04)
         acc = 0.0
         choice = 5
         for i, x in enumerate(w):
@@ -68,6 +70,8 @@ def rand_history(r, kind, n):
             if k < acc:
                 choice = i
                 break
+        if choice == 2 and len(lives) == 1 and kind != "o" and r.random() < 0.6:
+            choice = 3            # keep the last sender a little longer
         if choice == 0 and lives:
             h = r.choice(lives)
             ops.append(("s", h, nextv))
@@ -87,19 +91,100 @@ def rand_history(r, kind, n):
             ops.append(("q" if (kind == "m" and r.random() < 0.2) else "p", wk))
         elif choice == 4:
             ops.append(("r",))
-            recv = False
+            if recv_left is None:
+                recv_left = r.randint(0, 3)
         else:
             # not expressible in Rust (handle gone / never existed): must be a no-op on both sides
             h = r.randint(0, len(live) + 1)
             ops.append(r.choice([("s", h, nextv), ("d", h), ("c", h)]))
             if ops[-1][0] == "s":
                 nextv += 1
-            # keep the Python bookkeeping exact
+            # keep the Python bookkeeping exact when the handle happens to be live
             if h < len(live) and live[h]:
                 if ops[-1][0] == "d" or (ops[-1][0] == "s" and kind == "o"):
                     live[h] = False
                 elif ops[-1][0] == "c" and kind != "o":
                     live.append(True)
+    if not ops:
+        ops.append(("p", 0))
+    return (kind, ops)
+
+
+def scenario(r, kind):
+    """structured families aimed at the wake-up and disconnection logic"""
+    ops = []
+    live = [True]
+    v = r.randint(1, 50)
+    if kind != "o":
+        for _ in range(r.randint(0, 3)):
+            ops.append(("c", r.choice([i for i, x in enumerate(live) if x])))
+            live.append(True)
+    fam = r.randint(0, 3)
+    if fam == 0:
+        # parked with a waker that is replaced, then signalled, then drained past empty
+        for _ in range(r.randint(1, 3)):
+            ops.append(("p", r.randint(0, 7)))
+        for _ in range(r.randint(1, 4) if kind != "o" else 1):
+            lives = [i for i, x in enumerate(live) if x]
+            if not lives:
+                break
+            h = r.choice(lives)
+            ops.append(("s", h, v))
+            v += 1
+            if kind == "o":
+                live[h] = False
+        for _ in range(r.randint(1, 5)):
+            ops.append(("p", r.randint(0, 3)))
+    elif fam == 1:
+        # parked, then the sender handles are dropped one by one (last drop must wake)
+        ops.append(("p", r.randint(0, 7)))
+        order = [i for i, x in enumerate(live) if x]
+        r.shuffle(order)
+        for h in order:
+            if r.random() < 0.3:
+                ops.append(("p", r.randint(0, 7)))
+            if r.random() < 0.25 and kind != "o":
+                ops.append(("s", h, v))
+                v += 1
+                if r.random() < 0.5:
+                    ops.append(("p", r.randint(0, 3)))
+            ops.append(("d", h))
+        for _ in range(r.randint(1, 3)):
+            ops.append(("p", r.randint(0, 3)))
+    elif fam == 2:
+        # burst of sends from several handles, drops in between, drain, re-park, send again
+        for _ in range(r.randint(2, 10)):
+            lives = [i for i, x in enumerate(live) if x]
+            if not lives:
+                break
+            h = r.choice(lives)
+            ops.append(("s", h, v))
+            v += 1
+            if kind == "o":
+                live[h] = False
+            elif r.random() < 0.15 and len(lives) > 1:
+                ops.append(("d", h))
+                live[h] = False
+        for _ in range(r.randint(1, 12)):
+            ops.append(("q" if kind == "m" and r.random() < 0.3 else "p", r.randint(0, 2)))
+        lives = [i for i, x in enumerate(live) if x]
+        if lives:
+            ops.append(("s", lives[0], v))
+            ops.append(("p", 1))
+            ops.append(("p", 1))
+    else:
+        # value sent, sender dropped, THEN first poll (value must win over disconnection)
+        lives = [i for i, x in enumerate(live) if x]
+        for h in lives:
+            if r.random() < 0.7:
+                ops.append(("s", h, v))
+                v += 1
+                if kind == "o":
+                    live[h] = False
+        for h in [i for i, x in enumerate(live) if x]:
+            ops.append(("d", h))
+        for _ in range(r.randint(1, 4) + (len(lives) if kind == "m" else 0)):
+            ops.append(("p", r.randint(0, 2)))
     return (kind, ops)
 
 
@@ -130,6 +215,9 @@ def gen(r, tier):
     cases += exhaustive("n", alpha, 4 if deep else 3)
     while len(cases) < n:
         kind = r.choice(["o", "m", "m", "n", "n"])
+        if r.random() < 0.3:
+            cases.append(scenario(r, kind))
+            continue
         ln = r.randint(2, 8) if kind == "o" else r.choice([r.randint(3, 12), r.randint(10, 40)])
         cases.append(rand_history(r, kind, ln))
     return cases
